@@ -196,6 +196,61 @@ MUTANTS = [
     m('C04-reverse-existing-task', 'C04', ['R6'], W + 'reverse_workflow.py',
       "        if self._get_task_executions(name=task_spec.get_name()):\n"
       "            return False\n", ""),
+    m('C04-join-partial-off-by-one', 'C04', ['R10'], W + 'direct_workflow.py',
+      "            if runnings_tuple[0] >= spec_cardinality:",
+      "            if runnings_tuple[0] > spec_cardinality:"),
+    m('C04-join-unreachable-off-by-one', 'C04', ['R10'],
+      W + 'direct_workflow.py',
+      "            if errors_tuple[0] > (total_count - spec_cardinality):",
+      "            if errors_tuple[0] >= (total_count - spec_cardinality):"),
+    m('C04-join-all-counts-errors', 'C04', ['R10'], W + 'direct_workflow.py',
+      "            if total_count == runnings_tuple[0]:",
+      "            if total_count == runnings_tuple[0] + errors_tuple[0]:"),
+    m('C04-join-all-never-fails', 'C04', ['R10'], W + 'direct_workflow.py',
+      "            if errors_tuple[0] > 0:\n"
+      "                return base.TaskLogicalState(\n"
+      "                    states.ERROR,",
+      "            if errors_tuple[0] > total_count:\n"
+      "                return base.TaskLogicalState(\n"
+      "                    states.ERROR,"),
+    m('C04-join-one-is-two', 'C04', ['R10'], W + 'direct_workflow.py',
+      "            spec_cardinality = 1 if join_expr == 'one' else join_expr",
+      "            spec_cardinality = 2 if join_expr == 'one' else join_expr"),
+    m('C04-count-reads-depth', 'C04', ['R10'], W + 'direct_workflow.py',
+      "                if s[2] == state:\n                    cnt += 1",
+      "                if s[3] == state:\n                    cnt += 1"),
+    m('C04-induced-unfinished-counts', 'C04', ['R10'],
+      W + 'direct_workflow.py',
+      "        if not states.is_completed(in_task_ex.state):\n"
+      "            return states.WAITING, 1, None",
+      "        if states.is_running(in_task_ex.state):\n"
+      "            return states.WAITING, 1, None"),
+    m('C04-induced-not-routed-waits', 'C04', ['R10'],
+      W + 'direct_workflow.py',
+      "            return states.ERROR, 1, \"not triggered\"",
+      "            return states.WAITING, 1, \"not triggered\""),
+    m('C04-route-paused-inbound-dead', 'C04', ['R10'],
+      W + 'direct_workflow.py',
+      "                if not states.is_completed(t_ex.state):\n"
+      "                    return True, depth",
+      "                if states.is_running(t_ex.state):\n"
+      "                    return True, depth"),
+    m('C04-route-first-inbound-decides', 'C04', ['R10'],
+      W + 'direct_workflow.py',
+      "                if t_name in [t[0] for t in t_ex.next_tasks]:\n"
+      "                    return True, depth\n",
+      "                if t_name in [t[0] for t in t_ex.next_tasks]:\n"
+      "                    return True, depth\n\n"
+      "                return False, depth\n"),
+    m('C04-triggered-by-errors', 'C04', ['R10'], W + 'direct_workflow.py',
+      "            if total_count == runnings_tuple[0]:\n"
+      "                return base.TaskLogicalState(\n"
+      "                    states.RUNNING,\n"
+      "                    triggered_by=_triggered_by(states.RUNNING)",
+      "            if total_count == runnings_tuple[0]:\n"
+      "                return base.TaskLogicalState(\n"
+      "                    states.RUNNING,\n"
+      "                    triggered_by=_triggered_by(states.ERROR)"),
     # ---------------------------------------------------------------- C05
     m('C05-evaluate-in-place', 'C05', ['R1'], 'mistral/expressions/__init__.py',
       "    data = copy.deepcopy(data)\n\n    if not context:",
@@ -948,6 +1003,36 @@ REFACTORS = [
       "                    additive_context=ctx\n                )",
       "                ctx = data_flow.evaluate_upstream_context(batch, "
       "ctx)"),
+    r('C04-ref-join-compare-mirrored', 'C04', W + 'direct_workflow.py',
+      "            if runnings_tuple[0] >= spec_cardinality:",
+      "            if spec_cardinality <= runnings_tuple[0]:"),
+    r('C04-ref-join-unreachable-rearranged', 'C04', W + 'direct_workflow.py',
+      "            if errors_tuple[0] > (total_count - spec_cardinality):",
+      "            if errors_tuple[0] + spec_cardinality >= total_count + 1:"),
+    r('C04-ref-join-all-ge', 'C04', W + 'direct_workflow.py',
+      "            if total_count == runnings_tuple[0]:",
+      "            if runnings_tuple[0] >= total_count:"),
+    r('C04-ref-join-locals-renamed', 'C04', W + 'direct_workflow.py',
+      "        errors_tuple = count(states.ERROR)\n"
+      "        runnings_tuple = count(states.RUNNING)\n"
+      "        total_count = len(induced_states)",
+      "        errors_tuple = count(states.ERROR)\n"
+      "        runnings_tuple = count(states.RUNNING)\n"
+      "        total_count = len(induced_states)\n"
+      "        LOG.debug('join %s', join_expr)"),
+    r('C04-ref-induced-positive-form', 'C04', W + 'direct_workflow.py',
+      "        if join_task_name not in next_tasks_dict:\n"
+      "            return states.ERROR, 1, \"not triggered\"\n\n"
+      "        return states.RUNNING, 1, next_tasks_dict[join_task_name]",
+      "        if join_task_name in next_tasks_dict:\n"
+      "            return states.RUNNING, 1, next_tasks_dict[join_task_name]"
+      "\n\n        return states.ERROR, 1, \"not triggered\""),
+    r('C04-ref-route-state-membership', 'C04', W + 'direct_workflow.py',
+      "                if not states.is_completed(t_ex.state):\n"
+      "                    return True, depth",
+      "                if t_ex.state not in (states.SUCCESS, states.ERROR, "
+      "states.CANCELLED, states.SKIPPED):\n"
+      "                    return True, depth"),
     r('C04-ref-walk-nested-ifs', 'C04', W + 'direct_workflow.py',
       "            if t_name in all_joins and t_name in t_execs_cache:\n"
       "                res.add(t_execs_cache[t_name])\n"
